@@ -309,6 +309,10 @@ func applyC19Mod(cfg *jsonpath.Config, how int) {
 		cfg.SetFilterFunction("f1", c19Tagger("f1-REPLACED"))
 	case 1:
 		cfg.SetAccessorMode()
+	case 3:
+		// an aggregate function alone, re-registered under its name: nothing else is touched, so
+		// whatever the library derived from the Config earlier has no other reason to be rebuilt
+		cfg.SetAggregateFunction("g1", func([]interface{}) (interface{}, error) { return "g1-REPLACED-ALONE", nil })
 	default:
 		cfg.SetAggregateFunction("g1", func([]interface{}) (interface{}, error) { return "g1-REPLACED", nil })
 		cfg.SetFilterFunction("zz", c19Tagger("zz"))
@@ -325,7 +329,7 @@ func drawC19(rt *rapid.T) *Case {
 	c := &Case{}
 	for i := 0; i < n; i++ {
 		if i > 0 && gen.Uniform(rt, "opkind", 6) == 0 {
-			c.Ops = append(c.Ops, Op{Kind: "modcfg", A: int(rapid.Uint32().Draw(rt, "which") % 1000), B: gen.Uniform(rt, "how", 3)})
+			c.Ops = append(c.Ops, Op{Kind: "modcfg", A: int(rapid.Uint32().Draw(rt, "which") % 1000), B: gen.Uniform(rt, "how", 4)})
 			continue
 		}
 		// bias towards alternating failing / valid and different configs
@@ -338,7 +342,7 @@ func drawC19(rt *rapid.T) *Case {
 			// the history's own []Config, passed with "configs[k:]...", and functions registered on its
 			// elements between calls
 			if gen.Uniform(rt, "slicemod", 3) == 0 {
-				c.Ops = append(c.Ops, Op{Kind: "modslice", A: gen.Uniform(rt, "elem", c19Configs), B: gen.Uniform(rt, "how", 3)})
+				c.Ops = append(c.Ops, Op{Kind: "modslice", A: gen.Uniform(rt, "elem", c19Configs), B: gen.Uniform(rt, "how", 4)})
 			} else {
 				c.Ops = append(c.Ops, Op{Kind: "spread", A: gen.Uniform(rt, "desc", len(descs))})
 			}
